@@ -779,6 +779,18 @@ class ExprMixin:
     def equals(self, a: SV, b: SV, node=None):
         if a.py is not None or b.py is not None:
             raise Unsupported("equality on non-value", node)
+        if a.ty is TStr and b.ty is TStr:
+            # x.lower() == "const"  (resp. upper): decided as a case-insensitive match of x
+            for u, v in ((a, b), (b, a)):
+                ut, vt = z3.simplify(u.t), z3.simplify(v.t)
+                if z3.is_app(ut) and ut.decl().name() in ("str_lower", "str_upper") and z3.is_string_value(vt):
+                    const = vt.as_string()
+                    want = const.lower() if ut.decl().name() == "str_lower" else const.upper()
+                    if const != want:
+                        return z3.BoolVal(False)
+                    parts = [z3.Union(z3.Re(ch.lower()), z3.Re(ch.upper())) if ch.lower() != ch.upper() else z3.Re(ch) for ch in const]
+                    rx = z3.Concat(*parts) if len(parts) > 1 else (parts[0] if parts else z3.Re(""))
+                    return z3.InRe(ut.arg(0), rx)
         if a.ty == b.ty:
             return self.eq_same(a.ty, a.t, b.t)
         # None comparisons
